@@ -37,6 +37,10 @@ def _file(draw):
     spec['trail'] = draw(st.integers(0, 3))
     # no ANALYSIS segment: the reader documents that an unparseable ANALYSIS segment is replaced by an empty
     # dictionary with a warning, so a cut inside it is not "loud" by design; C16 quantifies over C01's layouts
+    if spec['version'] != 'FCS2.0' and draw(st.sampled_from([True, False, False])):
+        # a supplemental TEXT segment, in front of DATA or behind it (then a cut can hit it while DATA is complete)
+        spec['stext'] = [['KS%d' % i, draw(st.sampled_from(['v', 'val ue', '1', 'x' * 9]))] for i in range(draw(st.integers(1, 3)))]
+        spec['stext_after'] = draw(st.booleans())
     return dict(spec=spec, only=None)
 
 
@@ -180,7 +184,10 @@ def check(case, obs):
     buf, info = fcsgen.write(path, c01_write_spec(spec))
     exp = expected_bits(spec)
     exp_text = dict(info['pairs'])
+    exp_text.update(dict(spec.get('stext') or []))
     exp_an = dict(spec.get('analysis') or [])
+    if spec.get('stext'):
+        obs.label('stext_after_data' if spec.get('stext_after') else 'stext_before_data')
     d0 = load(path)
     if not obs.claim('intact_loads', d0 is not None and same_as(d0, exp, exp_text, exp_an, None)[0],
                      'the intact file does not load to the written events/keywords'):
@@ -230,6 +237,7 @@ def check(case, obs):
         if d is None:
             continue
         exp_text_d = dict(info2['pairs'])
+        exp_text_d.update(dict(spec.get('stext') or []))
         ok, outcome = same_as(d, exp, exp_text_d, exp_an, None)
         if not ok:
             report(dmg, outcome, exp_text_d)
